@@ -645,6 +645,12 @@ def gen_export_tables():
                "    fields with the probed condition, fields passed although not in `vars(x)`) -/")
     out.append("def reprProbe : List (String × Bool × List String × List (String × String) × List String) := [\n  "
                + ",\n  ".join(probe_rows) + "]")
+    mods = [(c.__name__, inspect.getmodule(c).__name__) for c in export_classes() + [fl.Rule]]
+    out.append("/-- (class, module that `Representation.package_of` reports for its instances) -/")
+    out.append("def classModule : List (String × String) := ["
+               + ", ".join(f"({lean_str(n)}, {lean_str(m)})" for n, m in mods) + "]")
+    out.append(f"/-- module of the `settings` object: prefix of `nan`, `inf`, `array` -/\ndef settingsModule : String := "
+               f"{lean_str(inspect.getmodule(fl.settings).__name__)}")
     out.append(f"def defaultResolution : Nat := {int(fl.IntegralDefuzzifier.default_resolution)}")
     out.append("def defuzzifierTypes : List String := [" + ", ".join(lean_str(t.name) for t in fl.WeightedDefuzzifier.Type) + "]")
     out += ["", "end Gen.ExportTables", ""]
